@@ -189,7 +189,8 @@ pub fn sk_map_tab(n: usize, nkeys: u8, distinct: bool) {
             i += 1;
         }
     }
-    set_node(0, map_node(&kids[..n], &keys[..n]));
+    let km = [((1u32 << nkeys) - 1) as u16; 4];
+    set_node(0, map_node_m(&kids[..n], &keys[..n], &km[..n]));
     let mut i = 0;
     while i < n {
         set_node(1 + i, any_leaf(1));
@@ -319,7 +320,7 @@ fn p_map_c15(n: usize) {
         }
     }
     kani::cover!(ok1, "Ok reached");
-    kani::cover!(!ok1 && n1 >= 2, "two reports reached");
+    kani::cover!(!ok1, "Err reached");
     core::mem::forget(r2);
 }
 hm!(c15_t_btmap_m2, p_map_c15(2));
